@@ -1,5 +1,6 @@
 import Verif.Lemmas.HttpDecide
 import Verif.Lemmas.HttpHeaders
+import Verif.Lemmas.SseStream
 import Verif.Gen.HttpParams
 
 /-! # C11 — Streamable HTTP: exactly one terminal message per request, whatever the server
@@ -249,6 +250,39 @@ example :
   decide
 
 end headers
+
+/-! ## The streaming branch of `_process_sse_response` (supplementary; unreachable with httpx,
+see `Verif.Model.SseStream`) -/
+
+section stream
+open Verif.Model.SseStream
+
+/-- Chunk independence: however the body is cut into chunks (inside a line, inside a CRLF,
+inside a multi-byte character's neighbourhood, one character at a time), the streaming branch
+yields what it yields for the whole body in one chunk. -/
+theorem c11_stream_chunk_independent (chunks : List (List Char)) :
+    parseStream chunks = parseStream [chunks.flatten] :=
+  parseStream_chunks chunks
+
+/-- On the encodings its (pre-repair) grammar understands — explicit event type, one space
+after each colon, LF or CRLF, every event terminated by its blank line — the streaming branch
+yields exactly the events, in order, for every chunking. -/
+theorem c11_stream_plain_encodings (evs : List PlainEvent) (eols : List Bool) (chunks : List (List Char))
+    (h : ∀ e ∈ evs, PlainOk e = true) (hc : chunks.flatten = withEols (evs.flatMap plainLines) eols) :
+    parseStream chunks = evs.map (fun e => (e.name, joinNl e.data)) :=
+  parseStream_plain evs eols chunks h hc
+
+/-- non-vacuity, and what the branch would lose if it were ever reached: an event without
+event field, a field without the space, an unterminated last line -/
+example :
+    parseStream ["event: mess".toList, "age\r".toList, "\ndata: {}\r\n\r".toList, "\n".toList]
+      = [("message".toList, "{}".toList)] ∧
+    parseStream ["data: {}\n\n".toList] = [] ∧ parseText "data: {}\n\n".toList = [("message".toList, "{}".toList)] ∧
+    parseStream ["event:message\ndata:{}\n\n".toList] = [] ∧
+    parseStream ["event: message\ndata: {}".toList] = [] := by
+  decide
+
+end stream
 
 /-! ## Parameter validation (supplementary; `Verif.Gen.HttpParams` is REGENERATED from the
 field validators of `StreamableHTTPParameters` on every run) -/
